@@ -86,6 +86,26 @@ class C13Np(NumpyShim):
             return out
         return NumpyShim.ascontiguousarray(self, a, dtype=dtype, **k)
 
+    @staticmethod
+    def _vals(a):
+        """(finite?, value) samples -> their values, for arithmetic / comparison functions"""
+        if isinstance(a, rnp.ndarray) and a.dtype == object and any(isinstance(e, FV) for e in a.flat):
+            out = rnp.empty(a.shape, dtype=object)
+            for idx in rnp.ndindex(a.shape):
+                e = a[idx]
+                out[idx] = e._v() if isinstance(e, FV) else e
+            return out.view(SymNd)
+        return a._v() if isinstance(a, FV) else a
+
+    def allclose(self, a, b, **k):
+        return NumpyShim.allclose(self, self._vals(a), self._vals(b), **k)
+
+    def isclose(self, a, b, **k):
+        return NumpyShim.isclose(self, self._vals(a), self._vals(b), **k)
+
+    def array_equal(self, a, b, **k):
+        return NumpyShim.array_equal(self, self._vals(a), self._vals(b), **k)
+
     def isfinite(self, a):
         if isinstance(a, MetaNd):
             out = rnp.empty(a.shape, dtype=object)
